@@ -3,8 +3,10 @@ package router
 import (
 	"bytes"
 	"encoding/base64"
+	"errors"
 	"io"
 	"log"
+	"net"
 	"net/netip"
 	"time"
 
@@ -16,7 +18,22 @@ import (
 	"github.com/valyala/fasthttp"
 )
 
-func (r *router) startFastHttpServer(cfg *ServerConfig) (*fasthttp.Server, error) {
+// fastHttpServer closes the listener along with the fasthttp server.
+// fasthttp.Server.Shutdown() only knows listeners that Serve() has already
+// registered. If Shutdown() wins the race against the goroutine calling
+// Serve(), the listener would stay open (and serving) forever.
+type fastHttpServer struct {
+	s *fasthttp.Server
+	l net.Listener
+}
+
+func (s *fastHttpServer) Shutdown() error {
+	err := s.s.Shutdown()
+	s.l.Close()
+	return err
+}
+
+func (r *router) startFastHttpServer(cfg *ServerConfig) (*fastHttpServer, error) {
 	const defaultIdleTimeout = time.Second * 30
 	idleTimeout := time.Duration(cfg.IdleTimeout) * time.Second
 	if idleTimeout <= 0 {
@@ -50,14 +67,15 @@ func (r *router) startFastHttpServer(cfg *ServerConfig) (*fasthttp.Server, error
 		Logger:                       log.New(mlog.WriteToLogger(*h.logger, "redirected fasthttp log", "msg"), "", 0),
 	}
 
+	fs := &fastHttpServer{s: s, l: l}
 	go func() {
 		defer l.Close()
 		err := s.Serve(l)
-		if err != nil {
+		if err != nil && !errors.Is(err, net.ErrClosed) {
 			r.fatal("fasthttp server exited", err)
 		}
 	}()
-	return s, nil
+	return fs, nil
 }
 
 type fasthttpHandler struct {
